@@ -35,6 +35,10 @@ def find_rank_site(an: Analysis):
     raise AnalysisError("decoder rank bookkeeping (`if index not in self.MAP: self.MAP[index] = RANK`) not found")
 
 
+def _is_rank_call(node, rank_name: str) -> bool:
+    return isinstance(node, ast.Call) and isinstance(node.func, ast.Attribute) and node.func.attr == rank_name
+
+
 def self_attrs(node, self_):
     return {n.attr for n in ast.walk(node) if isinstance(n, ast.Attribute) and isinstance(n.value, ast.Name) and n.value.id == self_}
 
@@ -240,6 +244,59 @@ def run(an: Analysis, rep):
                     f"entries are compared through self.{keyattr}, the key the encoder looks values up by" if ok else
                     f"table entries are keyed with `{norm_src(fnode)}` here, not with self.{keyattr} (the key the encoder looks values up by): entries the encoder keeps apart are "
                     f"treated as duplicates and keep a redundant position override - or real duplicates are missed and the re-encoding merges them")
+
+    # R09.5: nothing but the rank function decides an override
+    rep.rule("R09.5", "position overrides of decoded operands come from the rank function only", 4)
+    over_classes = {c.name for c in an.prog.all_classes() if c.is_dataclass and c.field("_index_override") is not None}
+    n55 = 0
+    for g2 in an.closure("from_code"):
+        # names bound by unpacking a call of the rank function, and never assigned otherwise
+        rank_names = {}
+        assigned = {}
+        for n in ast.walk(g2.node):
+            if isinstance(n, ast.Assign):
+                for t in n.targets:
+                    for x in ast.walk(t):
+                        if isinstance(x, ast.Name) and isinstance(x.ctx, ast.Store):
+                            assigned[x.id] = assigned.get(x.id, 0) + 1
+                if len(n.targets) == 1 and isinstance(n.targets[0], ast.Tuple) and len(n.targets[0].elts) == 2 and _is_rank_call(n.value, f.name) \
+                        and all(isinstance(e, ast.Name) for e in n.targets[0].elts):
+                    rank_names[n.targets[0].elts[1].id] = n
+        for n in ast.walk(g2.node):
+            if isinstance(n, ast.Call):
+                fname = n.func.id if isinstance(n.func, ast.Name) else None
+                if fname in over_classes:
+                    n55 += 1
+                    ov = None
+                    kind = "default"
+                    if len(n.args) == 1 and isinstance(n.args[0], ast.Starred):
+                        ok5 = _is_rank_call(n.args[0].value, f.name) or (isinstance(n.args[0].value, ast.Name))  # `*xs` with xs yielded by the never-met generator
+                        kind = "starred"
+                    else:
+                        if len(n.args) >= 2:
+                            ov = n.args[1]
+                        for k in n.keywords:
+                            if k.arg == "_index_override":
+                                ov = k.value
+                        ok5 = ov is None or (isinstance(ov, ast.Name) and ov.id in rank_names and assigned.get(ov.id, 0) == 1)
+                    rep.add("R09.5", f"{g2.qual}::{fname}(...) override argument", ok5, loc(g2.module, n),
+                            "the override is the rank function's verdict" if ok5 else
+                            f"`{norm_src(n)}`: the position override is `{norm_src(ov) if ov is not None else '?'}`, which is not (only) what the rank function returned - an entry sitting at its "
+                            f"first-use rank can be given an override that can be stripped without changing the re-encoding")
+                if fname == "replace" and any(k.arg == "_index_override" for k in n.keywords):
+                    n55 += 1
+                    rep.add("R09.5", f"{g2.qual}::replace(..., _index_override=...)", False, loc(g2.module, n),
+                            f"`{norm_src(n)}` sets a position override after the rank function has decided that none is needed: the decoded data carries redundant overrides")
+    # the never-met generator yields the rank function's result and nothing else
+    for m in f.cls.methods.values():
+        if m is f:
+            continue
+        for n in ast.walk(m.node):
+            if isinstance(n, ast.Yield) and n.value is not None:
+                ok6 = _is_rank_call(n.value, f.name)
+                rep.add("R09.5", f"{m.qual}::yields the rank function's result", ok6, loc(m.module, n),
+                        "unreferenced entries are ranked like referenced ones" if ok6 else
+                        f"`yield {norm_src(n.value)}`: unreferenced entries get an override by another rule than the rank function's: an unreferenced entry at its rank is listed with a removable override")
 
     # R09.3 additional args
     gen = None
